@@ -91,21 +91,24 @@ def comparisons(rng, tools, laue):
 
 def hkl_comparisons(rng, tools, laue, sgs):
     from xfab import sg
+    from .. import hklcorr as HC
     no = rng.choice(sgs)
     choice = 'standard'
-    s = sg.sg(sgno=no)
+    if rng.random() < 0.2:
+        no, choice = rng.choice([146, 148, 155, 160, 161, 166, 167]), 'rhombohedral'
+    s = sg.sg(sgno=no, cell_choice=choice)
+    form, kw = rng.choice(HC.call_forms(s, no, choice))       # by number and setting / by the table's own name / by plain name and setting
     cell = conforming_cell(rng, s.crystal_system, s.cell_choice)
     lo, hi = 0.0, rng.uniform(0.15, 0.35) * 5.0 / cell[0] if cell[0] > 5 else rng.uniform(0.15, 0.3)
     if rng.random() < 0.15 and s.cell_choice != 'rhombohedral':
         # directed: one short reciprocal axis, indices beyond 10 along it
-        from .. import hklcorr as HC
-        dc = HC.make_directed_case(rng, s, 'high')
+        dc = HC.make_directed_case(rng, s, rng.choice(['high', 'veryhigh']))
         if dc is not None:
             cell, lo, hi = dc['cell'], dc['lo'], dc['hi']
     out = []
-    out.append(('genhkl_all', sorted_rows(tools.genhkl_all(cell, lo, hi, sgno=no)), sorted_rows(laue.genhkl_all(cell, lo, hi, sgno=no)), {}))
-    out.append(('genhkl_unique', sorted_rows(tools.genhkl_unique(cell, lo, hi, sgno=no, output_stl=True)),
-                sorted_rows(laue.genhkl_unique(cell, lo, hi, sgno=no, output_stl=True)), {}))
+    out.append(('genhkl_all', sorted_rows(tools.genhkl_all(cell, lo, hi, **kw)), sorted_rows(laue.genhkl_all(cell, lo, hi, **kw)), {}))
+    out.append(('genhkl_unique', sorted_rows(tools.genhkl_unique(cell, lo, hi, output_stl=True, **kw)),
+                sorted_rows(laue.genhkl_unique(cell, lo, hi, output_stl=True, **kw)), {}))
     out.append(('genhkl_base', sorted_rows(tools.genhkl_base(cell, s.syscond, lo, hi, s.crystal_system, s.Laue, s.cell_choice, True)),
                 sorted_rows(laue.genhkl_base(cell, s.syscond, lo, hi, s.crystal_system, s.Laue, s.cell_choice, True)), {}))
     out.append(('genhkl', sorted_rows(tools.genhkl(cell, s.syscond, lo, hi, output_stl=True)),
@@ -114,7 +117,7 @@ def hkl_comparisons(rng, tools, laue, sgs):
         h = [rng.randint(-9, 9) for _ in range(3)]
         out.append(('sysabs', tools.sysabs(h, s.syscond, s.crystal_system), laue.sysabs(h, s.syscond, s.crystal_system), {}))
         out.append(('sysabs_unique', tools.sysabs_unique(h, s.syscond), laue.sysabs_unique(h, s.syscond), {}))
-    return out, dict(sgno=no, cell=cell, sintlmax=hi)
+    return out, dict(sgno=no, cell=cell, sintlmax=hi, call=form)
 
 
 def conforming_cell(rng, csys, choice):
